@@ -62,7 +62,7 @@ TransformCode(tab) == [t \in 0..(N - 1) |-> IF t \in Splits THEN Evaluate(tab, W
 Init ==
     /\ sv \in [Splits -> 0..V]
     /\ thr2 \in Thr2s /\ mdi \in Mdis
-    /\ (SumOver([t \in Splits |-> sv[t] * (t + 1)], Splits) + thr2) % NSlices = Slice
+    /\ (SumOver([t \in Splits |-> sv[t] * ((t * t * 37 + t * 101 + 13) % 997)], Splits) + 331 * thr2 + 577 * mdi) % NSlices = Slice
     /\ scores = <<>> /\ i = 0 /\ start = -1 /\ ivs = <<>> /\ cps = <<>> /\ pc = "transform"
 
 Transform ==
